@@ -344,6 +344,12 @@ public:
     {
         return false;
     }
+    // how many fault positions of one kind are executed per chosen operation; when an operation
+    // has more sites than that, the positions are spread evenly over all of them (PRNG phase)
+    virtual int max_sites(const std::string& /*tier*/) const
+    {
+        return 48;
+    }
 };
 
 // ---------------------------------------------------------------- text format
